@@ -8,8 +8,10 @@ C12 — hierarchical cgroup rewrites.  Model of
 Cgroup directories are small naturals; the content of the one file being rewritten is a value of
 a per-resource domain `α` (CPU sets: bitmask `Nat`; limits/protections: `Int`, -1 = unlimited).
 The output of a batch is the *sequence of file writes*.  Core-only.
-Write failures / unreadable files (`continue` branches) are not modelled, except an invalid new
-value (`IsValid` false), which produces no write in either pass.
+An invalid new value (`IsValid` false) produces no write in either pass.  Directories that do not exist
+(ignored cgroup-dir error, `continue` without caching) are in Model/C12Env.lean; the kubelet static-policy
+branch of the BE suppression in Model/C12Static.lean; the string layer in Model/C12Parse.lean.  Hard write
+failures and unparsable file contents are not modelled.
 -/
 namespace KoordVerif.C12
 
